@@ -273,6 +273,11 @@ func (r *Run) Finish() int {
 	var knownLines []string
 	knownSeen := map[string]bool{}
 	os.MkdirAll(filepath.Join(r.Verif, "replays", r.Prop), 0755)
+	if old, _ := filepath.Glob(filepath.Join(r.Verif, "replays", r.Prop, fmt.Sprintf("%d-%s-*.json", r.Seed, r.Tier))); r.Replay == "" {
+		for _, f := range old {
+			os.Remove(f)
+		}
+	}
 	var violLines []string
 	nrep := 0
 	for _, v := range r.viol {
@@ -297,7 +302,11 @@ func (r *Run) Finish() int {
 		buf, _ := json.MarshalIndent(rep, "", " ")
 		os.WriteFile(path, buf, 0644)
 		violLines = append(violLines, fmt.Sprintf("VIOLATION property=%s replay=%s", r.Prop, path))
-		fmt.Printf("  violation kind=%s params=%v: %s\n", v.Kind, v.Params, v.Text)
+		txt := v.Text
+		if len(txt) > 400 {
+			txt = txt[:400] + "..."
+		}
+		fmt.Printf("  violation kind=%s params=%v: %s\n", v.Kind, v.Params, txt)
 	}
 	kf := []string{}
 	for id := range knownSeen {
